@@ -173,7 +173,7 @@ VALIDATORS = ('validate_block_size', 'signature::SignatureTable::validate_block_
 # tabled count is reported.  Keys carry no line numbers and no variable names.
 EXC = {
     ('async_sync::AsyncCopiaSync::delta', 'assert:Overflow'): (9, 'pos <= len <= isize::MAX and block_size <= 65536 once validated (C20.R7 guards the constructor); index*block_size < 2^48'),
-    ('<sync::CopiaSync as sync::Sync>::delta', 'assert:Overflow'): (9, 'same loop as the async engine'),
+    ('<sync::CopiaSync as sync::Sync>::delta', 'assert:Overflow'): (10, 'same loop as the async engine, plus matched+literal in its own debug_assert'),
     ('async_sync::AsyncCopiaSync::delta', 'index'): (7, 'every range/element is inside the loop condition pos + block_size <= len or the `<` test of the same arm; tail is [pos..] with pos <= len'),
     ('<sync::CopiaSync as sync::Sync>::delta', 'index'): (7, 'same loop as the async engine'),
     ('<sync::CopiaSync as sync::Sync>::delta', 'panic'): (1, 'debug_assert_eq!(matched+literal, source_size): a checker of C01.R2 accounting on delta\'s own output, not on hostile input'),
@@ -184,6 +184,7 @@ EXC = {
     ('checksum::FastRollingChecksum::roll', 'assert:Overflow'): (9, 'certified wrap-free by the C17 arithmetic analysis (normalisation every 5000 rolls)'),
     ('checksum::FastRollingChecksum::push', 'assert:Overflow'): (4, 'certified wrap-free by the C17 arithmetic analysis'),
     ('checksum::RollingChecksum::new', 'assert:Overflow'): (3, 'certified by the C17 arithmetic analysis'),
+    ('checksum::RollingChecksum::new', 'panic'): (2, 'debug_assert!(x % MOD < MOD) on its own result'),
     ('protocol::Codec::read_message', 'panic'): (1, 'debug_assert_eq!(header.magic, PROTOCOL_MAGIC) directly after header.validate()? succeeded (C20.R3 decides validate => magic)'),
     ('<sync::CopiaSync as sync::Sync>::patch', 'assert:Overflow'): (2, 'bytes_written is a sum of in-memory lengths: overflow needs > 2^32 ops'),
     ('signature::Signature::generate', 'std-panics'): (2, 'chunks(block_size)/div_ceil(block_size): block_size > 0 is the documented precondition of the library API (every CLI caller validates, C20.R7)'),
